@@ -79,7 +79,8 @@ def solveQ (a : List (List Rat)) (b : List Rat) : Option (List Rat) := Id.run do
   return some (m.toList.map fun row => row[n]!)
 
 /-- certificate: `x` solves `A x = b` exactly -/
-def checkSol (A : List (List Rat)) (x b : List Rat) : Bool := decide (mulVec A x = b)
+def checkSol (A : List (List Rat)) (x b : List Rat) : Bool :=
+  x.length == b.length && decide (mulVec A x = b)
 
 structure KrigeResult where
   weights : List Rat
